@@ -238,7 +238,9 @@ def make(seed: int, index: int, tier: str = 'quick', mode: str = 'random') -> di
         val = r.choice(sp.keysets[kc])
         keep = [i for i in range(n) if canon[kc][i] != float(val)]
         if 0 < len(keep) < n:
-            spec['remove'] = {'col': kc, 'value': float(val)}
+            # 'api': Database.remove; 'direct': rows dropped in place through the public attribute Database.data
+            # (the idiom of many biogeme scripts): only the model preparation can then bring the map up to date
+            spec['remove'] = {'col': kc, 'value': float(val), 'how': r.choice(['api', 'direct'])}
     if mode == 'outside':
         xv = r.choice(sp.real + sp.pos)
         how = r.choice(['mul', 'add'])
